@@ -30,7 +30,7 @@ def generate(rng):
         # read-side logging against kernel truth, incl. the asyncio path (PatternWaiter.data_received logs too)
         scn = unicode_fam.generate(rng)
         scn['logs'] = rng.choice([['logfile_read'], ['logfile'], ['logfile', 'logfile_read']])
-        if scn['transport'] in ('fd', 'pty') and rng.random() < 0.6:
+        if scn['transport'] in ('fd', 'pty') and scn.get('how') != 'growing_file' and rng.random() < 0.6:
             scn['async'] = True
             if scn.get('drain') == 'read':
                 scn['drain'] = 'expect_eof'
